@@ -86,7 +86,10 @@ def gen_case(rng, cid):
                 return NONE
             if k == "s":
                 return S(rng.choice(values))
-            return M([[a, rng.choice(values)] for a in axn])
+            # a mapping may name only some of the axes (the others take the grid's own setting, never what a mapping
+            # bound at definition time says once a mapping is given at call time)
+            named = axn if rng.random() < 0.5 else rng.sample(axn, rng.randint(1, len(axn)))
+            return M([[a, rng.choice(values)] for a in named])
 
         wopt = {"k": "m", "v": ws} if ws else NONE
         dfn = {"boundary": NONE, "fill_value": NONE, "boundary_width": NONE, "pad_before_func": NONE}
@@ -102,7 +105,8 @@ def gen_case(rng, cid):
                     call[k_] = {"k": "xnone"}            # None given explicitly at call time: the grid's own setting applies
             if rng.random() < 0.15 and ws:
                 # call-time widths override the definition-time ones
-                call["boundary_width"] = {"k": "m", "v": [[d, rng.randint(0, 2), rng.randint(0, 2)] for d, _, _ in ws]}
+                sub = ws if rng.random() < 0.5 else rng.sample(ws, rng.randint(1, len(ws)))      # possibly naming fewer axes
+                call["boundary_width"] = {"k": "m", "v": [[d, rng.randint(0, 2), rng.randint(0, 2)] for d, _, _ in sub]}
         # widths in force: those given at call time override the ones bound at definition time
         eff = call["boundary_width"]["v"] if call["boundary_width"]["k"] == "m" else (dfn["boundary_width"]["v"] if dfn["boundary_width"]["k"] == "m" else [])
         room = all(plen(p, axd[bind[d]]["n"]) - sum(lo + hi for dd, lo, hi in eff if dd == d) >= 1 for o in outs for d, p in o)
